@@ -320,3 +320,7 @@ Proof.
   - eexists; split; [reflexivity|left; reflexivity].
   - destruct x; try contradiction; eexists; (split; [reflexivity|right; eexists; split; reflexivity]).
 Qed.
+
+(* after the C04 repair len never panics *)
+Theorem len_total a : exists n, len_model a = LenOk n.
+Proof. destruct a as [|b|n|n|x| |]; simpl; try (eexists; reflexivity). destruct x; eexists; reflexivity. Qed.
